@@ -102,6 +102,30 @@ func callMenu() []callT {
 				toks := valid.ValidNamesSplit(a[0].(string))
 				return strings.Join(toks, "\x00"), toks
 			}, nil},
+		// rules with their own separator arguments next to the same rule with defaults: defaults must not be overwritten
+		{"Var(datetime custom separators)", func() []interface{} { return []interface{}{"2021/09/28 10.30.00", []string{"datetime='/, ,.'"}} },
+			func(a []interface{}) (string, []string) { return errText(valid.Var(a[0], a[1].([]string)...)), nil },
+			func() (string, bool) { return "<nil>", true }},
+		{"Var(datetime default ok + date custom bad)", func() []interface{} {
+			return []interface{}{"2021-09-28 10:30:00", []string{"datetime", "date='/'|d"}}
+		}, func(a []interface{}) (string, []string) { return errText(valid.Var(a[0], a[1].([]string)...)), nil },
+			func() (string, bool) { return `input "2021-09-28 10:30:00", explain: d`, true }},
+		// a call that is rejected before any rule is evaluated (unsupported source) must leave nothing behind either
+		{"Var(unsupported src)", func() []interface{} { return []interface{}{map[string]int{"a": 1}, []string{"phone", "to=9~9|never"}} },
+			func(a []interface{}) (string, []string) { return errText(valid.Var(a[0], a[1].([]string)...)), nil }, nil},
+		{"Var(nil)", func() []interface{} { return []interface{}{nil, []string{"email|never"}} },
+			func(a []interface{}) (string, []string) { return errText(valid.Var(a[0], a[1].([]string)...)), nil }, nil},
+		// two rule sets registered in one call: the caller's maps stay the caller's
+		{"VStruct.SetRule x2", func() []interface{} {
+			return []interface{}{&T1{F: "abcd", G: 2}, valid.RM{"F": "to=1~2|rm1-F"}, valid.RM{"G": "eq=7|rm2-G"}}
+		}, func(a []interface{}) (string, []string) {
+			return errText(valid.NewVStruct().SetRule(a[1].(valid.RM)).SetRule(a[2].(valid.RM)).Valid(a[0])), nil
+		}, nil},
+		{"VStruct.SetRule x2 (typed)", func() []interface{} {
+			return []interface{}{&T1{F: "abcd", G: 2}, valid.RM{"F": "to=1~2|rm1-F"}, valid.RM{"G": "eq=7|rm2-G"}}
+		}, func(a []interface{}) (string, []string) {
+			return errText(valid.NewVStruct().SetRule(a[1].(valid.RM), &T1{}).SetRule(a[2].(valid.RM), T1{}).Valid(a[0])), nil
+		}, nil},
 		{"GenValidKV+Explain", func() []interface{} { return []interface{}{"to", "1~10", "需要在 1-10"} },
 			func(a []interface{}) (string, []string) {
 				s := valid.GenValidKV(a[0].(string), a[1].(string), a[2].(string))
@@ -181,6 +205,19 @@ func run(c *runner.Ctx) {
 				c.Take()
 				c.Violation("fresh-result-differs-from-model/"+cl.name, map[string]interface{}{"call": cl.name, "model": m, "actual": fresh[i]})
 			}
+		}
+	}
+
+	// the same fresh-state results again in reverse order: a call must not depend on which calls this process made
+	// before (state surviving in package variables is invisible to a single forward pass, which computes every baseline
+	// after the same predecessors)
+	for i := len(menu) - 1; i >= 0; i-- {
+		d.inner = valid.NewLRU()
+		r, _ := menu[i].run(menu[i].mk())
+		if canon(r) != canon(fresh[i]) && c.Worker == 0 {
+			c.Space("model")
+			c.Take()
+			c.Violation("result-depends-on-history/"+menu[i].name, map[string]interface{}{"call": menu[i].name, "after_the_calls_before_it": fresh[i], "after_all_calls": r})
 		}
 	}
 
@@ -329,7 +366,7 @@ func main() {
 	runner.Main(runner.Config{
 		Property:  "C12",
 		Technique: "all call sequences/permutations up to a depth, single-threaded under the controlled scheduler with every sync.Pool.Get answer enumerated (deviation-bounded); fresh-state oracle + aliasing re-reads",
-		Rule: "14 heterogeneous calls (struct with default tag / tag b / per-call rules / per-call functions, group rules over a slice, Var with quoted rules, Map, Url, a call returning before validation, splitter, builder+extractor); " +
+		Rule: "20 heterogeneous calls (datetime with custom and default separators, calls rejected before validation (unsupported / nil source), two rule sets registered in one call, struct with default tag / tag b / per-call rules / per-call functions, group rules over a slice, Var with quoted rules, Map, Url, a call returning before validation, splitter, builder+extractor); " +
 			"all sequences of length<=3 (thorough: <=4) and all permutations of 4-subsets; per sequence every Pool.Get answer (top / other pooled object / New) within the deviation bound; per call: result = fresh-state result (= model for struct calls), " +
 			"arguments deep-equal to a fresh copy, every previously handed-out error string / rule token re-compared with its detached copy; transitions = scheduling steps; states = distinct result vectors; non-trivial = sequences of >=2 calls",
 		Assumptions: []string{"pool answers are owned by the scheduler shim (sync.Pool replaced through the build overlay)", "global type cache fresh per execution (delegating CacheEr)"},
